@@ -1,27 +1,132 @@
 (* C06 — Int arithmetic is exact and independent of integer representation.
-   Only statements here; proofs live in Proofs/C06_Int.v. *)
-From Elk Require Import Base.GoSem Model.C06_Int Proofs.C06_Int.
+   Only statements here; proofs live in Proofs/C06_Int.v, C06_Ext.v, C06_Shift.v.
+   `canonical v`: v is Small iff the integer fits in 64 bits (what every operation returns).
+   All results are stated on the model of the code AFTER fixes/C06-int-shift-negate-andnot.patch. *)
+From Elk Require Import Base.GoSem Model.C06_Int Proofs.C06_Int Proofs.C06_Ext Proofs.C06_Shift.
 Open Scope Z_scope.
 
-(* For every operator and every pair of canonical Ints (small or big), the implementation
-   model returns the canonical representation of the exact mathematical result
-   (truncated division, remainder with the dividend's sign), or ZeroDivisionError exactly
-   when the divisor is zero; it never panics. *)
+(* + - * / %: for every pair of canonical Ints (small or big) the model returns the canonical
+   representation of the exact result (truncated division, remainder with the dividend's
+   sign), ZeroDivisionError exactly when the divisor is zero; it never panics. *)
 Theorem C06_arith_exact : forall o x y,
   canonical x = true -> canonical y = true ->
   refines (impl o x y) (spec o (den x) (den y)).
 Proof. exact impl_refines_spec. Qed.
 Print Assumptions C06_arith_exact.
 
+(* unary minus, including -(MinSmallInt) = 2^63 (big) and -(2^63) = MinSmallInt (small) *)
+Theorem C06_neg_exact : forall x,
+  canonical x = true -> den (ineg x) = - den x /\ canonical (ineg x) = true.
+Proof. exact ineg_ok. Qed.
+Print Assumptions C06_neg_exact.
+
+(* ** with a non-negative exponent *)
+Theorem C06_pow_exact : forall x y,
+  0 <= den y -> den (ipow x y) = den x ^ den y /\ canonical (ipow x y) = true.
+Proof.
+  intros x y H. destruct (ipow_ok x y) as [D C]. rewrite D, (big_exp_nonneg _ _ H). auto.
+Qed.
+Print Assumptions C06_pow_exact.
+
+(* > >= < <= == agree with the order of the integers, whatever the representations *)
+Theorem C06_cmp_exact : forall o x y, icmp o x y = cmp_spec o (den x) (den y).
+Proof. exact icmp_ok. Qed.
+Print Assumptions C06_cmp_exact.
+
+(* <=> returns the SmallInt -1, 0 or 1 *)
+Theorem C06_compare_exact : forall x y,
+  den (icompare x y) = (match den x ?= den y with Lt => -1 | Eq => 0 | Gt => 1 end)
+  /\ canonical (icompare x y) = true.
+Proof. exact icompare_ok. Qed.
+Print Assumptions C06_compare_exact.
+
+(* & | ^ &~ are the two's-complement operations on unbounded integers *)
+Theorem C06_bitwise_exact : forall o x y,
+  canonical x = true -> canonical y = true ->
+  den (ibit o x y) = bit_z o (den x) (den y) /\ canonical (ibit o x y) = true.
+Proof. exact ibit_ok. Qed.
+Print Assumptions C06_bitwise_exact.
+
+(* shifts by any amount that is a SmallInt other than MinSmallInt: a << n = a * 2^n for
+   n >= 0 and floor(a / 2^-n) for n < 0; a >> n = a << -n; the result is canonical; no panic *)
+Theorem C06_shift_exact : forall x y,
+  canonical x = true -> canonical y = true -> min64 < den y <= max64 ->
+  (exists v, ishl x y = Ok v /\ canonical v = true /\
+     den v = if 0 <=? den y then den x * 2 ^ den y else den x / 2 ^ (- den y)) /\
+  (exists v, ishr x y = Ok v /\ canonical v = true /\
+     den v = if 0 <=? - den y then den x * 2 ^ (- den y) else den x / 2 ^ (- - den y)).
+Proof.
+  intros x y Cx Cy R. destruct (shift_exact_small_amounts x y Cx Cy R) as [[v [E [D C]]] [w [E' [D' C']]]].
+  split; [exists v|exists w]; auto.
+Qed.
+Print Assumptions C06_shift_exact.
+
+(* shifts by every amount, including MinSmallInt and BigInt amounts, under the guard that
+   excludes only values that cannot exist: L = effective left amount; a non-zero value is not
+   shifted left by more than 2^63-1 bits, and a value shifted right by 2^63 bits or more is
+   shorter than the amount (then the result is the sign: 0 or -1). *)
+Theorem C06_shl_exact : forall x y,
+  canonical x = true -> canonical y = true ->
+  (max64 < den y -> den x = 0) ->
+  (den y <= min64 -> - 2 ^ (- den y) <= den x < 2 ^ (- den y)) ->
+  exists v, ishl x y = Ok v /\ den v = Z.shiftl (den x) (den y) /\ canonical v = true.
+Proof. intros x y Cx Cy G1 G2. apply ishl_exact; [assumption|assumption|split; assumption]. Qed.
+Print Assumptions C06_shl_exact.
+
+Theorem C06_shr_exact : forall x y,
+  canonical x = true -> canonical y = true ->
+  (max64 < - den y -> den x = 0) ->
+  (- den y <= min64 -> - 2 ^ (- - den y) <= den x < 2 ^ (- - den y)) ->
+  exists v, ishr x y = Ok v /\ den v = Z.shiftr (den x) (den y) /\ canonical v = true.
+Proof. intros x y Cx Cy G1 G2. apply ishr_exact; [assumption|assumption|split; assumption]. Qed.
+Print Assumptions C06_shr_exact.
+
+(* no operand pair at all makes a shift panic (memory exhaustion of huge left shifts is
+   outside the model) *)
+Theorem C06_shift_no_panic : forall x y,
+  (exists v, ishl x y = Ok v) /\ (exists v, ishr x y = Ok v).
+Proof. exact shifts_no_panic. Qed.
+Print Assumptions C06_shift_no_panic.
+
 (* A canonical Int is determined by the integer it denotes: results cannot depend on
-   whether operands arrived as small or big values. *)
+   whether operands arrived as small or big values... *)
 Theorem C06_repr_indep : forall x y,
   canonical x = true -> canonical y = true -> den x = den y -> x = y.
 Proof. exact canonical_unique. Qed.
 Print Assumptions C06_repr_indep.
+
+(* ...so every observation (==, hash, inspect, any later operation) agrees *)
+Theorem C06_obs_indep : forall (A : Type) (obs : ival -> A) x y,
+  canonical x = true -> canonical y = true -> den x = den y -> obs x = obs y.
+Proof. intros A obs. exact (obs_indep obs). Qed.
+Print Assumptions C06_obs_indep.
 
 Example C06_nonvacuous :
   canonical (Small 5) = true /\ canonical (Big (2 ^ 64)) = true /\
   impl OpDiv (Small (-5)) (Small 10) = Ok (Small 0) /\
   impl OpMod (Small min64) (Big (2 ^ 63)) = Ok (Small 0).
 Proof. repeat split; vm_compute; reflexivity. Qed.
+
+Example C06_ext_nonvacuous :
+  ishl (Small 1) (Small 64) = Ok (Big (2 ^ 64)) /\
+  ishl (Small (-1)) (Small 63) = Ok (Small min64) /\
+  ishr (Small (-1)) (Big (2 ^ 70)) = Ok (Small (-1)) /\
+  ishl (Big (2 ^ 100)) (Small (-1)) = Ok (Big (2 ^ 99)) /\
+  ishr (Big (2 ^ 64)) (Small 2) = Ok (Small (2 ^ 62)) /\
+  ineg (Big (2 ^ 63)) = Small min64 /\ ineg (Small min64) = Big (2 ^ 63) /\
+  ipow (Small 2) (Small 63) = Big (2 ^ 63) /\
+  ibit BAndNot (Big (2 ^ 70 + 5)) (Small 3) = Big (2 ^ 70 + 4) /\
+  icmp CLt (Small 5) (Big (2 ^ 64)) = true.
+Proof. repeat split; vm_compute; reflexivity. Qed.
+
+(* the guard of C06_shr_exact is satisfiable with an amount that is not a SmallInt:
+   x = -1, y = 2^70 (the witness of the repaired defect `-1 >> 2**70`) *)
+Example C06_guard_nonvacuous : forall k, 2 ^ 63 <= k ->
+  (max64 < - k -> -1 = 0) /\ (- k <= min64 -> - 2 ^ (- - k) <= -1 < 2 ^ (- - k)).
+Proof.
+  intros k Hk. assert (K : 0 <= k) by (eapply Z.le_trans; [|exact Hk]; discriminate).
+  split.
+  - intros H. exfalso. unfold max64 in H. assert (0 < 2 ^ 63) by reflexivity. lia.
+  - intros _. rewrite Z.opp_involutive.
+    pose proof (Z.pow_pos_nonneg 2 k ltac:(reflexivity) K) as P. lia.
+Qed.
